@@ -31,7 +31,8 @@ import (
 type ConnPlan struct {
 	Dial   string // "ok" | "err" | "hang" (until the dial context ends)
 	Answer int    // answer this many queries ...
-	After  string // ... then: "healthy" keep answering | "close" EOF right behind the last reply | "silent" |
+	After  string // ... then: "healthy" keep answering | "close" EOF right behind the last reply | "closelate" EOF only
+	//          once the next query has been written | "silent" |
 	//          "reset" the next Write fails | "rst" the next Write succeeds and the read side then fails
 	HoldAll bool // do not answer until Release() (to build up concurrent in-flight queries)
 	// SlowClose: the client's Close() of this connection takes this long (a TLS close_notify flush, a slow kernel).
@@ -48,6 +49,8 @@ type World struct {
 	Conns   []*FakeConn
 	Dials   int32
 	release chan struct{}
+	// Datagram: connections carry one message per Read/Write without a length prefix (UDP framing)
+	Datagram bool
 }
 
 func NewWorld(plans []ConnPlan) *World {
@@ -88,6 +91,7 @@ func (w *World) DialNet(ctx context.Context) (transport.NetConn, error) {
 		return nil, ctx.Err()
 	}
 	c := newFakeConn(i, p, w.release)
+	c.dg = w.Datagram
 	w.mu.Lock()
 	w.Conns = append(w.Conns, c)
 	w.mu.Unlock()
@@ -102,7 +106,9 @@ type FakeConn struct {
 	mu        sync.Mutex
 	cond      *sync.Cond
 	buf       bytes.Buffer
-	eof       bool  // server closed: EOF once buf is drained
+	dg        bool     // datagram framing
+	dq        [][]byte // queued datagrams
+	eof       bool     // server closed: EOF once buf is drained
 	rerr      error // read side error once buf is drained
 	closed    bool
 	closeSeq  int64
@@ -143,8 +149,13 @@ var seq atomic.Int64
 func (c *FakeConn) Read(p []byte) (int, error) {
 	c.mu.Lock()
 	defer c.mu.Unlock()
-	for c.buf.Len() == 0 && !c.eof && c.rerr == nil && !c.closed {
+	for c.buf.Len() == 0 && len(c.dq) == 0 && !c.eof && c.rerr == nil && !c.closed {
 		c.cond.Wait()
+	}
+	if len(c.dq) > 0 {
+		n := copy(p, c.dq[0])
+		c.dq = c.dq[1:]
+		return n, nil
 	}
 	if c.buf.Len() > 0 {
 		return c.buf.Read(p)
@@ -160,7 +171,11 @@ func (c *FakeConn) Read(p []byte) (int, error) {
 
 // deliver queues one reply frame and applies the plan's After. Caller holds c.mu.
 func (c *FakeConn) deliver(frame []byte) {
-	c.buf.Write(frame)
+	if c.dg {
+		c.dq = append(c.dq, frame[2:])
+	} else {
+		c.buf.Write(frame)
+	}
 	c.answered++
 	c.inflight--
 	if c.answered >= c.plan.Answer && c.plan.After == "close" {
@@ -173,8 +188,12 @@ func (c *FakeConn) Write(p []byte) (int, error) {
 	if len(p) < 2 {
 		return 0, errors.New("poolx: short write")
 	}
+	body := p[2:]
+	if c.dg {
+		body = p
+	}
 	m := new(dns.Msg)
-	if err := m.Unpack(p[2:]); err != nil || len(m.Question) != 1 {
+	if err := m.Unpack(body); err != nil || len(m.Question) != 1 {
 		return 0, fmt.Errorf("poolx: bad query: %v", err)
 	}
 	call := -1
@@ -200,8 +219,10 @@ func (c *FakeConn) Write(p []byte) (int, error) {
 			c.rerr = errReset
 			c.cond.Broadcast()
 			return len(p), nil
-		case "close":
+		case "close", "closelate":
 			// the peer is gone: the write still succeeds, the read side reports EOF
+			// ("closelate": the server closes only now, after it has read this query, so the client could not
+			// have noticed earlier)
 			c.eof = true
 			c.cond.Broadcast()
 			return len(p), nil
@@ -316,6 +337,22 @@ func NewPipeline(w *World, maxCq, maxQueue int) *transport.PipelineTransport {
 				return nil, err
 			}
 			return transport.NewDnsConn(transport.TraditionalDnsConnOpts{WithLengthHeader: true, MaxConcurrentQuery: maxCq,
+				IdleTimeout: time.Minute}, c), nil
+		},
+		MaxConcurrentQueryWhileDialing: maxQueue,
+	})
+}
+
+// NewPipelineUDP is NewPipeline over datagram framing (what the plain udp upstream uses).
+func NewPipelineUDP(w *World, maxCq, maxQueue int) *transport.PipelineTransport {
+	w.Datagram = true
+	return transport.NewPipelineTransport(transport.PipelineOpts{
+		DialContext: func(ctx context.Context) (transport.DnsConn, error) {
+			c, err := w.DialNet(ctx)
+			if err != nil {
+				return nil, err
+			}
+			return transport.NewDnsConn(transport.TraditionalDnsConnOpts{WithLengthHeader: false, MaxConcurrentQuery: maxCq,
 				IdleTimeout: time.Minute}, c), nil
 		},
 		MaxConcurrentQueryWhileDialing: maxQueue,
